@@ -12,6 +12,7 @@ pub mod c10;
 pub mod c11;
 pub mod c12;
 pub mod c14;
+pub mod c16;
 pub mod c17;
 
 pub fn run(id: &str, ctx: &Ctx) -> i32 {
@@ -30,6 +31,7 @@ pub fn run(id: &str, ctx: &Ctx) -> i32 {
         "C11" => c11::run(ctx),
         "C12" => c12::run(ctx),
         "C14" => c14::run(ctx),
+        "C16" => c16::run(ctx),
         "C17" => c17::run(ctx),
         _ => { eprintln!("unknown property {id}"); 2 }
     }
@@ -50,6 +52,7 @@ pub fn replay(id: &str, path: &str) -> i32 {
         "C11" => c11::replay(&v),
         "C12" => c12::replay(&v),
         "C14" => c14::replay(&v),
+        "C16" => c16::replay(&v),
         "C17" => c17::replay(&v),
         _ => { eprintln!("unknown property {id}"); 2 }
     }
